@@ -1,4 +1,243 @@
+//! C09 — every witness slot has one creator and balanced multiplicities; every operand an
+//! operation's relation depends on takes part in the witness bus.
+//!
+//! Exhaustive exploration (E1) of builder programs; for each compiled circuit the REAL
+//! preparation code (`get_airs_and_degrees_with_prep`) produces the final per-op preprocessed
+//! values (bus index + signed multiplicity of every port of every Const / Public / ALU row).
+//! The audit groups them by slot — no witness values are needed, the bus index and the
+//! multiplicity of every interaction are functions of preprocessed data only:
+//!   (1) a slot that some port reads has exactly one creator port,
+//!   (2) the creator's multiplicity equals the number of reader ports,
+//!   (3) a port the op's relation depends on (a,b,out; c for mul-add/Horner) with effective
+//!       multiplicity 0 must be the only mention of its slot (otherwise it floats free of
+//!       the value other rows see).
+//! Second opinion on a budgeted subset: honest traces through the prover with p3's
+//! `check_lookups` multiset debug check switched on.
+
+use std::sync::Mutex;
+use std::sync::atomic::{AtomicU64, Ordering};
+
+use p3_baby_bear::BabyBear;
+use p3_batch_stark::ProverData;
+use p3_circuit::Circuit;
+use p3_circuit_prover::batch_stark_prover::{BatchStarkProver, CircuitProverData, TablePacking};
+use p3_circuit_prover::common::get_airs_and_degrees_with_prep;
+use p3_circuit_prover::config::{self, BabyBearConfig};
+use p3_circuit_prover::ConstraintProfile;
+use p3_field::{PrimeCharacteristicRing, PrimeField64};
+use vpcore::serde_json::{Value, json};
+use vpcore::{Ctx, Histo, Report, finish, quiet_catch};
+use vpe1::bus::{BusFinding, audit, ports, prepare, slot_sources};
+use vpe1::explore::{SeenSet, Stats, explore, input_vectors};
+use vpe1::families::{families, families_scaled};
+use vpe1::prog::{Program, materialize, ref_eval, remove_call};
+
+type F = BabyBear;
+
+fn consts() -> Vec<F> {
+    vec![F::ZERO, F::ONE, F::from_u64(5), F::from_u64(7)]
+}
+/// p3's own multiset check on an honest execution (panics inside the prover on imbalance).
+fn debug_lookup_check(circuit: &Circuit<F>, pubs: &[F], privs: &[F]) -> Result<(), String> {
+    let mut r = circuit.runner();
+    r.set_public_inputs(pubs).map_err(|e| format!("run: {e:?}"))?;
+    r.set_private_inputs(privs).map_err(|e| format!("run: {e:?}"))?;
+    let traces = r.run().map_err(|e| format!("run: {e:?}"))?;
+    let res = quiet_catch(|| {
+        let cfg = config::baby_bear();
+        let (ad, prim, np) = get_airs_and_degrees_with_prep::<BabyBearConfig, _, 1>(circuit, &TablePacking::default(), &[], &[], ConstraintProfile::Standard).map_err(|e| format!("prep: {e:?}"))?;
+        let (airs, degs): (Vec<_>, Vec<usize>) = ad.into_iter().unzip();
+        let pd = ProverData::from_airs_and_degrees(&cfg, &airs, &degs);
+        let cpd = CircuitProverData::new(pd, prim, np);
+        let mut prover = BatchStarkProver::new(cfg);
+        prover = prover.with_debug_lookups();
+        prover.prove_all_tables(&traces, &cpd).map(|_| ()).map_err(|e| format!("prove: {e:?}"))
+    });
+    match res {
+        Ok(Ok(())) => Ok(()),
+        Ok(Err(e)) => Err(e),
+        Err(p) => Err(format!("lookup debug check panicked: {p}")),
+    }
+}
+
+struct Checked {
+    findings: Vec<BusFinding>,
+}
+
+fn check_program(p: &Program, cs: &[F], h: Option<&Histo>) -> Option<Checked> {
+    let m = materialize::<F, F>(p, cs).ok()?;
+    let nodes = m.nodes.clone();
+    let circuit = m.builder.build().ok()?;
+    let prim = match prepare(&circuit) {
+        Ok(x) => x,
+        Err(e) => {
+            if let Some(h) = h {
+                h.add(&format!("prep_err:{}", e.split(|c: char| !c.is_alphanumeric()).next().unwrap_or("")));
+            }
+            return None;
+        }
+    };
+    let ps = match ports(&circuit, &prim) {
+        Ok(x) => x,
+        Err(e) => vpcore::machinery_error(&format!("C09 cannot read preprocessed layout: {e}")),
+    };
+    let findings = audit(&ps, &slot_sources(&nodes, &circuit));
+    if let Some(h) = h {
+        h.add(if findings.is_empty() { "balanced" } else { "unbalanced" });
+    }
+    Some(Checked { findings })
+}
+
+fn minimise(p: &Program, clause: &str, cs: &[F]) -> Program {
+    let fails = |q: &Program| check_program(q, cs, None).is_some_and(|c| c.findings.iter().any(|f| f.key() == clause));
+    let mut cur = p.clone();
+    loop {
+        let mut improved = false;
+        for j in (0..cur.calls.len()).rev() {
+            if let Some(q) = remove_call(&cur, j)
+                && fails(&q)
+            {
+                cur = q;
+                improved = true;
+                break;
+            }
+        }
+        if !improved {
+            return cur;
+        }
+    }
+}
+
 fn main() {
-    eprintln!("MACHINERY-ERROR: check c09 not built yet");
-    std::process::exit(2);
+    vpcore::install_quiet_panic_hook();
+    let ctx = Ctx::from_args("C09", "model_checking");
+    let cs = consts();
+    let report = Report::new();
+
+    if let Some(path) = &ctx.replay {
+        let r = vpcore::load_replay(path);
+        let p: Program = vpcore::serde_json::from_value(r["program"].clone()).unwrap_or_else(|e| vpcore::machinery_error(&format!("bad replay: {e}")));
+        println!("replaying: {}", p.show());
+        if let Ok(m) = materialize::<F, F>(&p, &cs) {
+            if let Ok(c) = m.builder.build() {
+                for op in &c.ops {
+                    println!("  op {op:?}");
+                }
+                if let Ok(prim) = prepare(&c) {
+                    for pt in ports(&c, &prim).unwrap_or_default() {
+                        println!("  port {pt:?}");
+                    }
+                }
+            }
+        }
+        if let Some(c) = check_program(&p, &cs, None) {
+            for f in c.findings {
+                println!("  [{}] {}", f.key(), f.detail);
+                report.violation(f.key(), f.detail.clone(), json!({"program": p}));
+            }
+        }
+        let cov = json!({"states":1,"transitions":1,"traces_validated_against_impl":1,"samples":[p.show()],"replay":true});
+        finish(&ctx, cov, vec![], &report);
+    }
+
+    let mut fams = families_scaled(if ctx.quick() { 1 } else { 2 });
+    if let Some(f) = ctx.opt("family") {
+        fams = families(true).into_iter().chain(families(false)).chain(families_scaled(1)).filter(|x| x.name == f).collect();
+    }
+    let seen_keys = SeenSet::default();
+    let histo = Histo::new();
+    let samples: Mutex<Vec<Value>> = Mutex::new(vec![]);
+    let audited = AtomicU64::new(0);
+    let raw = AtomicU64::new(0);
+    let minimise_budget = AtomicU64::new(0);
+    let dbg_budget = AtomicU64::new(if ctx.quick() { 300 } else { 20000 });
+    let dbg_done = AtomicU64::new(0);
+    let mut fam_reports = vec![];
+    let (mut th, mut tc) = (0u64, 0u64);
+    let mut all_exhaustive = true;
+
+    for (fi, fam) in fams.iter().enumerate() {
+        let stats = Stats::default();
+        let seen_prune = SeenSet::default();
+        let stop_at = (0.92 * (fi as f64 + 1.0) / fams.len() as f64 + 0.04).min(0.95);
+        let t0 = ctx.elapsed_s();
+        explore::<F, F>(fam, &cs, &ctx, stop_at, &seen_keys, &seen_prune, &stats, &|_p, _m| {}, &|p, _m| {
+            let Some(c) = check_program(p, &cs, Some(&histo)) else { return };
+            audited.fetch_add(1, Ordering::Relaxed);
+            let clean = c.findings.is_empty();
+            for f in c.findings {
+                raw.fetch_add(1, Ordering::Relaxed);
+                let (q, minimised) = if minimise_budget.fetch_update(Ordering::Relaxed, Ordering::Relaxed, |b| b.checked_sub(1)).is_ok() {
+                    (minimise(p, &f.key(), &cs), true)
+                } else {
+                    (p.clone(), false)
+                };
+                report.violation_sized(
+                    f.key(),
+                    format!("[{}] e.g. {} — {}", f.key(), q.show(), f.detail),
+                    json!({"program": q, "found_in": p, "clause": f.clause, "features": f.features, "detail": f.detail, "minimised": minimised}),
+                    q.show().len(),
+                );
+            }
+            // second opinion: p3's multiset check on an honest run of audit-clean programs
+            if clean && dbg_budget.fetch_update(Ordering::Relaxed, Ordering::Relaxed, |b| b.checked_sub(1)).is_ok() {
+                let m = materialize::<F, F>(p, &cs).unwrap();
+                let (np, nv) = (m.n_pub, m.n_priv);
+                let circuit = m.builder.build().unwrap();
+                let vals = [F::ZERO, F::ONE, F::TWO, F::from_u64(3)];
+                // first satisfying, fully defined input vector over the alphabet
+                for v in input_vectors(&vals, np + nv) {
+                    let re = ref_eval::<F, F>(p, &cs, &v[..np], &v[np..]);
+                    if re.undefined || !re.sat {
+                        continue;
+                    }
+                    dbg_done.fetch_add(1, Ordering::Relaxed);
+                    match debug_lookup_check(&circuit, &v[..np], &v[np..]) {
+                        Ok(()) => histo.add("debug_lookups_ok"),
+                        Err(e) if e.starts_with("lookup debug check panicked") => {
+                            histo.add("debug_lookups_imbalance");
+                            report.violation(
+                                format!("audit_clean_but_multiset_unbalanced|{}", p.show()),
+                                format!("{} — audit found nothing but p3 check_lookups fails on an honest run: {e}", p.show()),
+                                json!({"program": p, "inputs": v.iter().map(|x| x.as_canonical_u64()).collect::<Vec<_>>()}),
+                            );
+                        }
+                        Err(e) => histo.add(&format!("debug_lookups_other:{}", e.split(':').next().unwrap_or(""))),
+                    }
+                    break;
+                }
+            }
+            let mut s = samples.lock().unwrap();
+            if s.len() < 6 && p.calls.len() >= 3 {
+                s.push(json!(p.show()));
+            }
+        });
+        let h = stats.histories.load(Ordering::Relaxed);
+        let c = stats.canonical.load(Ordering::Relaxed);
+        let to = stats.timed_out.load(Ordering::Relaxed);
+        th += h;
+        tc += c;
+        all_exhaustive &= !to;
+        fam_reports.push(json!({"family": fam.name, "bounds": fam, "histories": h, "new_canonical_programs": c, "exhaustive": !to, "wall_s": ctx.elapsed_s() - t0}));
+        eprintln!("family {} histories={} canonical={} exhaustive={} t={:.1}s", fam.name, h, c, !to, ctx.elapsed_s() - t0);
+    }
+
+    let cov = json!({
+        "states": tc,
+        "transitions": th,
+        "traces_validated_against_impl": audited.load(Ordering::Relaxed),
+        "samples": *samples.lock().unwrap(),
+        "state_definition": "a state is a builder program identified by the H1 snapshot; every state is compiled and prepared by the real get_airs_and_degrees_with_prep; the audit reads the final per-op preprocessed bus indices and multiplicities",
+        "families": fam_reports,
+        "exhaustive": all_exhaustive,
+        "programs_audited": audited.load(Ordering::Relaxed),
+        "honest_runs_through_p3_check_lookups": dbg_done.load(Ordering::Relaxed),
+        "outcome_histogram": histo.to_json(),
+        "raw_findings": raw.load(Ordering::Relaxed),
+        "configuration": "BabyBear D=1, default TablePacking (bus indices and multiplicities do not depend on lanes)",
+    });
+    finish(&ctx, cov, vec![
+        "effective multiplicities are read as the AIR documents them: a: mult_a*a_reader_col, c: mult_a*c_reader_col, b: mult_b, out: mult_out; Const/Public: [mult, idx]".into(),
+        "a budgeted subset of audit-clean programs is cross-checked by p3_lookup::debug_util::check_lookups on honest traces".into(),
+    ], &report);
 }
